@@ -572,6 +572,10 @@ def cases(tier, seed):
                 continue
             for seq in itertools.product(sub, repeat=3):
                 out.append({"scn": name, "prefix": "twomesh", "ops": list(seq)})
+            # histories that go BACK to an earlier mesh, store there, and move on to a further mesh (reduced alphabet, length 3)
+            if "replacemesh" not in _skips(name):
+                for seq in itertools.product(["set0", "save", "replacemesh"], repeat=3):
+                    out.append({"scn": name, "prefix": "twomesh", "ops": list(seq)})
     return out
 
 
@@ -584,7 +588,7 @@ def describe(tier, seed):
                 "Result(name, iter=0) equals the value recorded at save time, Load_Simu(Save()) has the same mesh, tags, count and stored iterations. "
                 "non-trivial = at least two stored iterations or one restore; distinct = fingerprint of all observations",
         "exhaustive": True,
-        "bound": f"depth {depth} after the prefix" + ("; depth 3 over {saveload, folderA, folderB, set0, setlast} after the two-mesh prefix" if tier == "quick" else ""),
+        "bound": f"depth {depth} after the prefix" + ("; depth 3 over {saveload, folderA, folderB, set0, setlast} and over {set0, save, replacemesh} after the two-mesh prefix" if tier == "quick" else "") + "; at the end of every history holding two meshes, every stored iteration is restored in turn",
         "alphabet": {"ops": len(OPS), "scenarios": len(SCENARIOS), "prefixes": len(PREFIXES)},
         "assumptions": ["Result(name, iter=i) is documented to restore iteration i: treated as restore-then-query",
                         "velocity/acceleration are demanded only for scenarios whose time scheme uses them",
@@ -787,7 +791,13 @@ def _run(case, scn, tmp):
             key = s["mesh"]
         elif op == "replacemesh":
             key = scn.mesh1 if key == scn.mesh0 else scn.mesh0
-            simu.mesh = scn.replacement(key) if hasattr(scn, "replacement") else scn.mesh(key)
+            newmesh = scn.replacement(key) if hasattr(scn, "replacement") else scn.mesh(key)
+            nrep = done.count("replacemesh")
+            if nrep >= 2:
+                # a mesh kind that comes back is not a twin of its earlier instance: the body is 1.3 % (2.6 %, ...) larger each time, so that an
+                # iteration restored onto the wrong instance of the list of meshes is seen
+                newmesh.coord = np.asarray(newmesh.coord, dtype=float) * (1.0 + 0.013 * (nrep - 1))
+            simu.mesh = newmesh
         elif op == "saveload":
             folder = os.path.join(tmp, "S%d" % len(done))
             if "saveload" in done[:-1]:
@@ -864,5 +874,26 @@ def _run(case, scn, tmp):
         if vv:
             v += vv
             break
+    if not v and len(snaps) >= 2 and "replacemesh" in done:
+        # end of a history that holds several meshes: EVERY stored iteration (not only the first and the last, which the letters address)
+        # can still be restored onto the mesh that was current when it was saved
+        kk = dict(k0, ops="+".join(done))
+        for i, s_ in enumerate(snaps):
+            try:
+                simu.Set_Iter(i)
+            except Exception as err:
+                v.append(viol("sweep_restore_raises", f"after {done}: Set_Iter({i}) (restoring every stored iteration in turn at the end of the history) raised "
+                                                      f"{type(err).__name__}: {str(err)[:160]}", exc=type(err).__name__, saved_to_disk=("saveload" in done), **kk))
+                break
+            ntr += 1
+            if simu.mesh.Nn != s_["Nn"] or not _eq(np.array(simu.mesh.coord), s_["coords"]):
+                v.append(viol("sweep_restore_mesh", f"after {done}: Set_Iter({i}) at the end of the history did not bring back the mesh of iteration {i}", **kk))
+                break
+            f = scn.fields(simu)
+            bad = [name for name in s_["fields"] if not same_rate(name, f.get(name), s_["fields"][name], 1e-12)]
+            if bad:
+                v.append(viol("sweep_restore_field", f"after {done}: Set_Iter({i}) at the end of the history: live field(s) {bad[:3]} differ from those current when "
+                                                     f"iteration {i} was saved", field=bad[0].split(".")[-1], **kk))
+                break
     return {"violations": v[:4], "fingerprint": fp(case["scn"], case["prefix"], case["ops"], obsfp),
             "nontrivial": len(snaps) >= 2 or nrestore > 0, "transitions": ntr}
